@@ -6,7 +6,8 @@ stream consumed by a monitor in the runner. Workload: generated loop programs wi
 slots whose contents are replaced for ever, optional transient spikes of live data) and per-iteration garbage of
 every object kind; caught injected failures inside the loop body (error paths are where a root handle is most
 likely to be leaked). Invariants checked at every allocation event (I1 byte bound, I2 accounting) and over the
-recorded history (I3 object counts N vs 2N iterations, I4 rooted objects N vs 2N, I5 pacing liveness).
+recorded history (I3 object counts N vs 2N iterations, I4 rooted objects N vs 2N, I5 pacing liveness, I6 the number of
+fiber objects alive at quiescence equals the number the program can still reach).
 """
 import json
 
@@ -180,6 +181,21 @@ def checksum_of(hist):
     return None
 
 
+CALIBRATION = PRELUDE + """fn run(n) { print(("gc",)); print(("stats", "end")); return 0; }
+print(("ev", "sum", run(0)));
+"""
+_base_fibers = {}
+
+
+def held_fibers(ir):
+    """fiber objects the loop program can still reach at quiescence (ring slots of kind 7 hold a suspended fiber each,
+    `headf` is always held; with the daisy-chain statement `prevf` and the predecessor its closure still names)"""
+    n = sum(1 for kd in ir["slots"] if kd == 7) + 1
+    if any(g == "fiber_daisy_chain" for g, _ in ir["body"]):
+        n += 2        # prevf (suspended) and, through the variable its body closed over, its finished predecessor
+    return n
+
+
 class C16:
     ID = "C16"
     LEVEL = "exploration"
@@ -280,6 +296,19 @@ class C16:
         if s1 is None or s2 is None:
             res["violation"] = {"class": "harness", "msg": "heap statistics event missing"}
             return res
+        # I6: fiber objects alive at quiescence = the ones the program can still reach (+ what an idle interpreter has)
+        if "base" not in _base_fibers:
+            cal = ctx.run("release+hooks", {"programs": [{"kind": "snippet", "source": CALIBRATION}], "tape": [], "faults": {},
+                                            "config": {"gc": {"mode": "native", "quarantine": False, "monitor": True}, "max_events": 64}})
+            cs = stats_of(cal) or {}
+            _base_fibers["base"] = sum(v[0] for t_, v in cs.items() if "ObjFiber" in t_)
+        want = _base_fibers["base"] + held_fibers(ir)
+        for label_, st_ in (("N", s1), ("2N", s2)):
+            have = sum(v[0] for t_, v in st_.items() if "ObjFiber" in t_)
+            if have != want:
+                res["violation"] = {"class": "unreachable-fibers-alive", "msg": "I6: [%s] %d fiber objects are alive after a full collection at quiescence; the program can reach %d (idle interpreter: %d)" % (
+                    label_, have, want - _base_fibers["base"], _base_fibers["base"])}
+                return res
         # I3 / I4
         for t in sorted(set(s1) | set(s2)):
             if excluded(t):
